@@ -14,6 +14,8 @@ use sqruff_lib_core::parser::segments::base::Tables;
 
 use crate::common::*;
 
+static GLOBAL_SEEN: std::sync::OnceLock<std::sync::Mutex<std::collections::HashSet<u64>>> = std::sync::OnceLock::new();
+
 const POLICIES: [&str; 5] = ["consistent", "upper", "lower", "capitalise", "pascal"];
 /// (config section, policy key)
 const KINDS: [(&str, &str); 5] = [
@@ -320,6 +322,17 @@ fn run_one(it: &Item, out: &mut Buf) {
         let exp = g_tuple(&[ma, g_opt(c.fixed.as_ref().map(|f| g_str(f)))]);
         if !seen.insert((args.clone(), exp.clone())) {
             continue;
+        }
+        // the same call shows up in many files: keep one correspondence case per distinct (args, expected)
+        {
+            use std::hash::{Hash, Hasher};
+            let mut h = std::collections::hash_map::DefaultHasher::new();
+            (&args, &exp).hash(&mut h);
+            let fresh = GLOBAL_SEEN.get_or_init(Default::default).lock().unwrap().insert(h.finish());
+            out.count("distinct_calls_seen_again_in_another_file", if fresh { 0 } else { 1 });
+            if !fresh {
+                continue;
+            }
         }
         let cls = if c.policy == "consistent" { if name == "Basic" { "consistent-basic" } else { "consistent-extended" } } else { "concrete" };
         out.case(
